@@ -188,6 +188,8 @@ R.contract("Node._add_peer_connection",
                     ("second-connection-of-a-connected-peer-refused",
                      "implies(not old(self._stopping) and old(conn.node_name != '' and conn.node_name in self.peers and "
                      "not is_none(self.peers[conn.node_name].connection)), is_none(result))"),
+                    ("a-registered-connection-keeps-its-state",
+                     "implies(not is_none(result), conn.state == old(conn.state))"),
                     ("registered-in-every-table",
                      "implies(not is_none(result), conn.ident == some(result) and self.connections[conn.ident] == conn and "
                      "conn.ident in self.connections and conn.ident in self.peer_sockets and "
@@ -316,7 +318,7 @@ R.contract("Node._reconnect_peers", params={"self": "Node"},
                      "dict:self.connections", "dict:self.peer_sockets", "dict:self.socket_peers",
                      "dict:self._half_ready_connections", "*MsgQueue.g_put", "*SequenceGenerator._sequence", "*Event.flag",
                      "*list:Peer", "dict:self._peer_waiting_answer"],
-           props=["C12", "C18"])
+           props=["C12", "C18", "C13"])
 R.loop("Node._reconnect_peers", 0,
        invariants=[("not-stopping", "not old(self._stopping)")],
        step=[("dials-exactly-the-peers-due",
